@@ -44,6 +44,8 @@ func IMMSites() []Site {
 		{Tag: "mut compound p.M+=", Stmt: "p.M += 1", Subj: SubjTMut, Codes: i2},
 		{Tag: "mut incdec x.M++", Stmt: "x.M++", Subj: SubjTMut, Codes: i3},
 		{Tag: "mut index x.Ms[0]", Stmt: "x.Ms[0] = 1", Subj: SubjTMut, Codes: i4},
+		{Tag: "mut second name of a multi-name field x.Mb", Stmt: "x.Mb = 1", Subj: SubjTMut, Codes: i1, Core: true},
+		{Tag: "mut first name of a multi-name field x.Ma++", Stmt: "x.Ma++", Subj: SubjTMut, Codes: i3},
 		// second annotated type: same field names, opposite @mutable marking, other constructor
 		{Tag: "T2 assign x2.M", Stmt: "x2.M = 1", Subj: SubjT2, Codes: i1, Core: true},
 		{Tag: "T2 incdec x2.M++", Stmt: "x2.M++", Subj: SubjT2, Codes: i3},
